@@ -1,8 +1,8 @@
 /* std::_Hash_bytes: any deterministic function of the bytes is a valid stand-in (the properties are of
- * the form equal input => equal hash, decided above this function). FNV-1a here. */
+ * the form equal input => equal hash, decided above this function). A rotate-xor mix here. */
 #include "verif_rt.h"
 uint64_t _ZSt11_Hash_bytesPKvmm(uint8_t *p, uint64_t n, uint64_t seed) {
-  uint64_t h = 1469598103934665603ULL ^ seed;
-  for (uint64_t i = 0; i < n; i++) { h ^= p[i]; h *= 1099511628211ULL; }
+  uint64_t h = 1469598103934665603ULL ^ seed ^ n;
+  for (uint64_t i = 0; i < n; i++) { h = (h << 5) | (h >> 59); h ^= p[i]; }   /* rotate-xor: no multiplier for the solver */
   return h;
 }
